@@ -9,6 +9,8 @@ import gen
 from common import Driver, sha
 
 
+REGEN = ("constants", "registry", "umapsrc")
+
 def data_tokens(batches):
     t = [len(batches)]
     for (i, r) in batches:
@@ -102,6 +104,8 @@ def run_history(ctx, drv_pending, base, batches, ops, X_by_id, label, feats, nco
 
 
 def run(ctx):
+    import srcval as _srcval
+    _srcval.validate_umap(ctx, 200 if ctx.thorough else 40, ctx.rng, only="init_transform")     # translated `init_transform` vs the Python source
     import umap
     rng = ctx.rng
     ctx.rule = ("all operation sequences over {T(current training data), T(original data), T(new1), T(new2), inverse_transform (3 rows), update(extra)}, on exact, NN-descent, CSR-trained, graph-mode and list-n_epochs models, plus histories with the round trip inverse_transform(embedding_) (as many rows as the training data) "
